@@ -33,6 +33,9 @@ fn feedback_cfg() -> Cfg {
     c.w_let = 7;
     c.max_depth = 3;
     c.expr.max_depth = 2;
+    // device values are 100..=105 here (so that a probe showing the device value is unlikely to
+    // be a variable's value by coincidence): never a loop bound as they are
+    c.small_device = false;
     c
 }
 
@@ -77,7 +80,7 @@ impl Property for C04 {
         let mut spec = gen_spec(
             &mut dch,
             &built.sigs,
-            &SpecCfg { palette: Palette::Small, zx: 0, free_layout: true, must_supply: must.clone(), both_driver_types: true },
+            &SpecCfg { palette: Palette::Hundred, zx: 0, free_layout: true, must_supply: must.clone(), both_driver_types: true },
         );
         if dch.chance(1, 4) {
             spec.zx = 24;
